@@ -166,6 +166,13 @@ def run_campaign(run, name, budget, seed, focus_prop, exhaustive_tour=False, mc=
     run.cov["tlc_runs"].append(dict(name=f"TRACE {name}", traces=len(traces), steps=steps, **res.summary()))
     run.cov.setdefault("graphs", {})[name] = dict(nodes=st["nodes"], edges=st["edges"], tour_steps=steps,
                                                   exhaustive_tour=exhaustive_tour)
+    # which kinds of call the tours made (the primary rejection cause of every refusal edge)
+    kinds = run.cov.setdefault("calls_by_kind", {})
+    for tr in traces:
+        for lab in tr["meta"]["labels"]:
+            m = re.search(r'"(nocontext|readonly|missing|duplicate|full|hole|badblock|badcomment)"\)$', lab)
+            key = ("refused:" + m.group(1)) if m else lab.split("(")[0].split(" ")[0]
+            kinds[key] = kinds.get(key, 0) + 1
     return traces, verdicts
 
 
